@@ -264,20 +264,34 @@ def concrete_helpers(repo, seed, n):
             return ev, dict(function="index2bool/flippv", pv=pv.tolist(), n=nn, got=[tf.tolist(), fl.tolist()])
         # mat_intersect: D1[pv1] == D2[pv2] row-wise; every common row reported
         r1, r2 = rng.randint(0, 6), rng.randint(0, 6)
-        pool_ = rng.randint(0, 4, size=(6, 2))
-        D1 = pool_[rng.permutation(6)[:r1]] if r1 else np.zeros((0, 2), int)
-        D2 = pool_[rng.permutation(6)[:r2]] if r2 else np.zeros((0, 2), int)
+        ncol_ = (2, 1, 3, 2)[it % 4]
+        pool_ = rng.randint(0, 4, size=(6, ncol_))
+        D1 = pool_[rng.permutation(6)[:r1]] if r1 else np.zeros((0, ncol_), int)
+        D2 = pool_[rng.permutation(6)[:r2]] if r2 else np.zeros((0, ncol_), int)
+        # element types: int/int, float/float with fractional values, and mixed int/float where the float operand has values an integer cannot hold
+        # (x.5 next to the integer x); 1-D vectors for one column
+        tk = (it // 4) % 5
+        if tk == 1:
+            D1, D2 = D1 + 0.5 * (D1 % 2), D2 + 0.5 * (D2 % 2)
+        elif tk in (2, 3) and r1 and r2:
+            Df = (D1 if tk == 2 else D2).astype(float)
+            Df[rng.rand(*Df.shape) < 0.4] += 0.5
+            D1, D2 = (Df, D2) if tk == 2 else (D1, Df)
+        elif tk == 4:
+            D1, D2 = D1.astype(np.int32), D2.astype(np.int64)
+        if ncol_ == 1 and it % 8 < 4:
+            D1, D2 = D1.ravel(), D2.ravel()
         for keep in (0, 1, 2):
             if r1 == 0 or r2 == 0:
                 continue
             pv1, pv2 = loc.mat_intersect(D1, D2, keep)
             ev += 1
-            ok = np.array_equal(D1[pv1], D2[pv2])
-            common1 = [i for i in range(r1) if any((D1[i] == D2[j]).all() for j in range(r2))]
-            if keep == 1:
+            ok = np.array_equal(D1[pv1], D2[pv2]) and len(pv1) == len(pv2)
+            common1 = [i for i in range(r1) if any(np.all(D1[i] == D2[j]) for j in range(r2))]
+            common2 = [j for j in range(r2) if any(np.all(D1[i] == D2[j]) for i in range(r1))]
+            if keep == 1 or (keep == 0 and r1 <= r2):
                 ok = ok and sorted(set(pv1.tolist())) == common1 and pv1.tolist() == sorted(pv1.tolist())
-            if keep == 2:
-                common2 = [j for j in range(r2) if any((D1[i] == D2[j]).all() for i in range(r1))]
+            if keep == 2 or (keep == 0 and r1 > r2):
                 ok = ok and sorted(set(pv2.tolist())) == common2 and pv2.tolist() == sorted(pv2.tolist())
             if not ok:
                 return ev, dict(function="mat_intersect", D1=D1.tolist(), D2=D2.tolist(), keep=keep, pv1=pv1.tolist(), pv2=pv2.tolist())
